@@ -820,9 +820,19 @@ def _ax_exp(c, x, y):
     return [y > 0, ln(y) == x]
 
 
+def _recip_log_axiom(c, fname, iname, x, y):
+    """log(1/m) == -log(m) when the argument is a reciprocal variable."""
+    m = c.recip_den.get(x.get_id())
+    if m is None:
+        return []
+    f, inv = c.ufun(fname), c.ufun(iname)
+    return [y == -f(m), z3.Implies(m > 0, inv(f(m)) == m)]
+
+
 def _ax_ln(c, x, y):
     ex = c.ufun('exp')
-    return [z3.Implies(x > 0, ex(y) == x)]
+    return [z3.Implies(x > 0, ex(y) == x)] + _recip_log_axiom(
+        c, 'ln', 'exp', x, y)
 
 
 def _ax_p10(c, x, y):
@@ -832,7 +842,8 @@ def _ax_p10(c, x, y):
 
 def _ax_lg(c, x, y):
     p10 = c.ufun('p10')
-    return [z3.Implies(x > 0, p10(y) == x)]
+    return [z3.Implies(x > 0, p10(y) == x)] + _recip_log_axiom(
+        c, 'lg', 'p10', x, y)
 
 
 _UF_AXIOMS.update(exp=_ax_exp, ln=_ax_ln, p10=_ax_p10, lg=_ax_lg)
